@@ -86,3 +86,12 @@ package pgo
 //@ func (a *posAdjuster) Pos$1(i) (r)
 //@   requires a != nil && 0 <= i && i < len(a.Adjs)
 //@   assigns nothing
+
+// sort.Interface over the position adjustments: sort.Sort calls Less and Swap with indexes below Len only.
+//@ func (a byOffset) Less(i, j) (r)
+//@   requires 0 <= i && i < len(a) && 0 <= j && j < len(a)
+//@   assigns nothing
+
+//@ func (a byOffset) Swap(i, j)
+//@   requires 0 <= i && i < len(a) && 0 <= j && j < len(a)
+//@   assigns elems(a)
